@@ -10,6 +10,7 @@ Comps == {A, B, AB}
 (* ab vs ab/a/b: only one of each pair can be stored)                        *)
 BfsNames == {<<A>>, <<AB>>, <<B, A>>, <<B, AB>>, <<A, B>>, <<B, B, A>>, <<B, B, B>>, <<AB, A, B>>}
 SmallNames == {<<A>>, <<AB>>, <<B, A>>, <<B, AB>>, <<A, B>>, <<B, B, A>>}
+QuickNames == {<<A>>, <<AB>>, <<B, A>>, <<A, B>>, <<B, B, A>>}
 (* the runs with Copy: three names (a and a/b conflict), any of them may be   *)
 (* tried as an absent source                                                 *)
 TinyNames == {<<A>>, <<B, A>>, <<A, B>>}
@@ -23,6 +24,7 @@ AllPrefixes(N) == UNION {{SubSeq(NameStr(n), 1, k) : k \in 0..Len(NameStr(n))} :
 Misses == {<<"c">>, <<"b", "/", "c">>, <<"/">>, <<"a", "/", "/">>, <<"a", "b", "a">>}
 BfsPrefixes == AllPrefixes(BfsNames) \cup Misses
 SmallPrefixes == AllPrefixes(SmallNames) \cup Misses
+QuickPrefixes == AllPrefixes(QuickNames) \cup Misses
 TinyPrefixes == AllPrefixes(TinyNames) \cup {<<"c">>}
 SimPrefixes == AllPrefixes(SimNames) \cup Misses \cup {NameStr(n) \o <<"/">> : n \in SimNames}
 
